@@ -5,7 +5,7 @@ set -e
 cd "$(dirname "$0")"
 export GOFLAGS=-mod=mod GOPROXY=off GOSUMDB=off GOTOOLCHAIN=local
 mkdir -p build replays evidence
-cp /repo/go.sum go/go.sum
+cp "${VERIF_REPO:-/repo}/go.sum" go/go.sum
 (cd go && go build -tags verif -o ../build/harness ./cmd/harness)
 (cd goext && go build -o ../build/extract .)
 (cd lean && lake build GtfsVerif driver)
